@@ -56,6 +56,17 @@ Theorem C08_prox_opt_zero : forall sigma x p,
 Proof. exact zero_prox_opt. Qed.
 Print Assumptions C08_prox_opt_zero.
 
+(* the two branches of the complex soft-threshold in closed form (the harness checks irrational-modulus cases against
+   these with per-case `interval` lemmas) *)
+Theorem C08_l1complex_prox_branches : forall n (w b : C) sigma (x : C),
+  (0 < cabs (csub x b) - cabs (cscale (sigma / n) w) ->
+   cl1_prox n w b sigma x =
+     ((cabs (csub x b) - cabs (cscale (sigma / n) w)) * (fst (csub x b) / cabs (csub x b)) + fst b,
+      (cabs (csub x b) - cabs (cscale (sigma / n) w)) * (snd (csub x b) / cabs (csub x b)) + snd b))
+  /\ (cabs (csub x b) - cabs (cscale (sigma / n) w) <= 0 -> cl1_prox n w b sigma x = b).
+Proof. intros. split; [apply cl1_prox_shrink|apply cl1_prox_kill]. Qed.
+Print Assumptions C08_l1complex_prox_branches.
+
 (* ---- lifted to tensors: any list l of element indices, per-element weight / target / sigma (broadcast) ---------- *)
 Theorem C08_prox_opt_l1real_tensor : forall (A : Type) (l : list A) n, 0 < n ->
   forall (w b sigma x p : A -> R), (forall i, In i l -> 0 <= sigma i) ->
@@ -274,6 +285,55 @@ Print Assumptions C08_transfer_l2.
 Theorem C08_transfer_cabs : forall z : CQ, cqabs_ok z = true -> Q2R (cqabs z) = cabs (Q2R (fst z), Q2R (snd z)).
 Proof. exact cqabs_coh. Qed.
 Print Assumptions C08_transfer_cabs.
+
+(* ---- coherence of the Gaussian-rational tensor layer (what the harness runs) with the real model ------------------ *)
+(* forward: every output position is the rational sum over its reduced index list divided by n, and Q2R of it is the real
+   sum / mean over the same list (any kind except the zero functional, any data) *)
+Theorem C08_transfer_forward_tensor : forall (e : espec) (xc : bool) (x : tens), ek e <> KZero ->
+  let dims := norm_dims (Z.of_nat (length (fst x))) (edim e) in
+  snd (e_forward e xc x)
+  = map (fun o => qre (Qred (qsum (map (znth 0%Q (fwd_vals e xc x)) (red_indices (fst x) dims o)) / fwd_n e x)))
+        (zrange (numel (kshape (fst x) dims)))
+  /\ (~ (fwd_n e x == 0)%Q -> forall o,
+       Q2R (Qred (qsum (map (znth 0%Q (fwd_vals e xc x)) (red_indices (fst x) dims o)) / fwd_n e x))
+       = sumR (fun i => Q2R (znth 0%Q (fwd_vals e xc x) i)) (red_indices (fst x) dims o) / Q2R (fwd_n e x))
+  /\ Q2R (fwd_n e x) = (if edivn e then IZR (nred (fst x) dims) else 1)
+  /\ (forall i, (0 <= i < numel (fst x))%Z ->
+       znth 0%Q (fwd_vals e xc x) i
+       = elem_val (ek e) (ewc e) (xc || ebc e) (bget (fst x) (ew e) (unravel (fst x) i))
+                  (bget (fst x) (eb e) (unravel (fst x) i)) (tget cq0 (fst x) (snd x) (unravel (fst x) i))).
+Proof.
+  intros e xc x Hk dims. split; [exact (e_forward_data e xc x Hk)|]. split; [intros Hn o; apply reduce_coh; exact Hn|].
+  split; [apply nfacQ_coh|]. intros i Hi. apply fwd_vals_spec. exact Hi.
+Qed.
+Print Assumptions C08_transfer_forward_tensor.
+
+(* prox and prox_convex_conj are pointwise in the broadcast operands (weight, target, sigma right-aligned, size-1 axes pinned) *)
+Theorem C08_transfer_pointwise_tensor : forall f (e : espec) (x sg t : tens) i,
+  e_pointwise f e x sg = Some t -> (0 <= i < numel (fst x))%Z ->
+  fst t = fst x /\
+  znth cq0 (snd t) i = f (ek e) (ewc e) (nfacQ (edivn e) (nprox (fst x) (edim e)))
+                         (bget (fst x) (ew e) (unravel (fst x) i)) (bget (fst x) (eb e) (unravel (fst x) i))
+                         (fst (bget (fst x) sg (unravel (fst x) i))) (tget cq0 (fst x) (snd x) (unravel (fst x) i)).
+Proof. exact e_pointwise_spec. Qed.
+Print Assumptions C08_transfer_pointwise_tensor.
+
+(* on real data (imaginary parts 0) the per-element functions of the tensor layer are the real scalar cores *)
+Theorem C08_transfer_elements_real : forall (wc dc : bool) (n wq bq sigma xq : Q),
+  Q2R (elem_val KL1 wc dc (wq, 0%Q) (bq, 0%Q) (xq, 0%Q)) = l1_val (Q2R wq) (Q2R bq) (Q2R xq)
+  /\ Q2R (elem_val KL2 wc dc (wq, 0%Q) (bq, 0%Q) (xq, 0%Q)) = l2_val (Q2R wq) (Q2R bq) (Q2R xq)
+  /\ Q2R (elem_val KL1R false false (wq, 0%Q) (bq, 0%Q) (xq, 0%Q)) = l1r_val_code false false (Q2R wq, 0) (Q2R bq, 0) (Q2R xq, 0)
+  /\ (~ (n == 0)%Q ->
+      Q2R (fst (elem_prox KL1 wc n (wq, 0%Q) (bq, 0%Q) sigma (xq, 0%Q))) = l1_prox (Q2R n) (Q2R wq) (Q2R bq) (Q2R sigma) (Q2R xq)
+      /\ (snd (elem_prox KL1 wc n (wq, 0%Q) (bq, 0%Q) sigma (xq, 0%Q)) == 0)%Q)
+  /\ ((0 < n)%Q -> (0 <= sigma)%Q ->
+      Q2R (fst (elem_prox KL2 wc n (wq, 0%Q) (bq, 0%Q) sigma (xq, 0%Q))) = l2_prox (Q2R n) (Q2R wq) (Q2R bq) (Q2R sigma) (Q2R xq)
+      /\ (snd (elem_prox KL2 wc n (wq, 0%Q) (bq, 0%Q) sigma (xq, 0%Q)) == 0)%Q).
+Proof.
+  intros. split; [apply elem_val_real_l1|]. split; [apply elem_val_real_l2|]. split; [apply elem_val_real_l1r|].
+  split; [intros Hn; apply elem_prox_real_l1; exact Hn|]. intros Hn Hs. apply elem_prox_real_l2; assumption.
+Qed.
+Print Assumptions C08_transfer_elements_real.
 
 (* ---- tensor layer: the N of divide_by_n ---------------------------------------------------------------------- *)
 (* prox / prox_convex_conj divide by math.prod(shape[i] for i in dim) (python indexing, negative i allowed); forward's
